@@ -131,7 +131,8 @@ _TS_FEAS = None
 def path_feasible(eng, p, limit=250000):
     """Can the path condition of p hold for some valuation?  Parameter values that carry a
     good calendar flag are restricted to real dates.  Returns False only when every
-    valuation of a complete (small enough) domain is inconsistent."""
+    valuation of a complete (small enough) domain is inconsistent, None when the path
+    condition contains a test the evaluator has no model for."""
     global _TS_FEAS
     import datetime as _dt
     import itertools
@@ -158,16 +159,88 @@ def path_feasible(eng, p, limit=250000):
             dm = _leaf_domain(eng.interp, p.st, l)
             if dm is None:
                 return True
-        doms.append(dm)
+        doms.append(list(dm))
         size *= max(1, len(dm))
-        if size > limit:
-            return True
+    if size > limit:
+        # large integer domains are cut down to the values that can change the outcome of an
+        # ordering test: the ends, the middle and the neighbours of every constant of the condition
+        consts = set()
+
+        def walk(t):
+            if isinstance(t, tuple):
+                if len(t) == 2 and t[0] in ("const", "int") and isinstance(t[1], int) \
+                        and not isinstance(t[1], bool):
+                    consts.add(t[1])
+                for x in t:
+                    walk(x)
+        for c, _t in p.conds:
+            walk(c)
+        size = 1
+        for i, (l, dm) in enumerate(zip(order, doms)):
+            if l != ("ts",) and len(dm) > 8 and all(isinstance(x, int) for x in dm):
+                keep = {dm[0], dm[1], dm[-2], dm[-1], dm[len(dm) // 2 - 1], dm[len(dm) // 2], dm[len(dm) // 2 + 1]}
+                for c in consts:
+                    keep |= {c - 1, c, c + 1}
+                doms[i] = [x for x in dm if x in keep]
+            size *= max(1, len(doms[i]))
+        if size > 8 * limit:
+            # too many combinations to enumerate: look for a witness among the valuations that
+            # give leaves of the same field the same value, then among random ones; none found
+            # leaves the question open
+            try:
+                f = e4.compile_path(p.conds, [], order)
+            except Undecided:
+                return None
+            index = {l: i for i, l in enumerate(order)}
+            cons = _date_constraints(p, index)
+            groups = {}
+            for i, l in enumerate(order):
+                key = l[-1] if isinstance(l, tuple) and l and isinstance(l[-1], str) else repr(l)
+                groups.setdefault(key, []).append(i)
+            gkeys = sorted(groups)
+            gdoms = []
+            gsize = 1
+            for k in gkeys:
+                common = None
+                for i in groups[k]:
+                    common = set(doms[i]) if common is None else (common & set(doms[i]))
+                gdoms.append(sorted(common, key=repr) if common else [None])
+                gsize *= max(1, len(gdoms[-1]))
+            if gsize <= 8 * limit:
+                for combo in itertools.product(*gdoms):
+                    a = [None] * len(order)
+                    ok = True
+                    for k, v in zip(gkeys, combo):
+                        for i in groups[k]:
+                            if v is None:
+                                a[i] = doms[i][0]
+                            else:
+                                a[i] = v
+                    if _dates_ok(a, cons) and f(a) is not None:
+                        return True
+            import random
+            rnd = random.Random(20240229)
+            for _ in range(60000):
+                a = [rnd.choice(d) for d in doms]
+                if _dates_ok(a, cons) and f(a) is not None:
+                    return True
+            return None
     try:
         f = e4.compile_path(p.conds, [], order)
     except Undecided:
-        return True
+        # a condition the evaluator has no model for: neither feasible nor infeasible is shown
+        return None
     # validity constraints of dated parameters
     index = {l: i for i, l in enumerate(order)}
+    cons = _date_constraints(p, index)
+    for combo in itertools.product(*doms):
+        a = list(combo)
+        if _dates_ok(a, cons) and f(a) is not None:
+            return True
+    return False
+
+
+def _date_constraints(p, index):
     cons = []
     for o in p.st.heap.values():
         if o.fresh or o.cal not in ("REAL", "CHECKED"):
@@ -175,15 +248,14 @@ def path_feasible(eng, p, limit=250000):
         li = [index.get(("attr", o.sym, f_)) for f_ in ("year", "month", "day")]
         if li[1] is not None and li[2] is not None:
             cons.append(li)
-    for combo in itertools.product(*doms):
-        a = list(combo)
-        ok = True
-        for yi, mi, di in cons:
-            try:
-                _dt.date(int(a[yi]) if yi is not None else 2000, int(a[mi]), int(a[di]))
-            except (ValueError, TypeError):
-                ok = False
-                break
-        if ok and f(a) is not None:
-            return True
-    return False
+    return cons
+
+
+def _dates_ok(a, cons):
+    import datetime as _dt
+    for yi, mi, di in cons:
+        try:
+            _dt.date(int(a[yi]) if yi is not None else 2000, int(a[mi]), int(a[di]))
+        except (ValueError, TypeError):
+            return False
+    return True
